@@ -20,17 +20,26 @@ def _on_alarm(sig, frame):
     raise _Timeout()
 
 
+_BOUND_HITS = [0]
+
+
 def guarded(fn, *args, limit=3.0):
     """run fn(*args) under a CPU-time bound (SIGVTALRM, so that the wall-clock timer of a forked child stays armed): a changed
-    library may loop or raise inside `a + b` itself. returns (status, value) with status ok / timeout / memory / exc"""
+    library may loop or raise inside `a + b` or inside `path()` itself. returns (status, value) with status ok / timeout / memory /
+    exc — and `skipped` (not run) once three evaluations of this process have hit the bound: a library whose walk does not
+    terminate is reported with the first failing inputs instead of exhausting the wall clock of the whole check"""
     import signal
+    if _BOUND_HITS[0] >= 3:
+        return "skipped", None
     old = signal.signal(signal.SIGVTALRM, _on_alarm)
     signal.setitimer(signal.ITIMER_VIRTUAL, limit)
     try:
         return "ok", fn(*args)
     except _Timeout:
+        _BOUND_HITS[0] += 1
         return "timeout", None
     except MemoryError:
+        _BOUND_HITS[0] += 1
         return "memory", None
     except Exception as e:  # noqa: BLE001
         return "exc", f"{type(e).__name__}: {e}"[:200]
@@ -44,6 +53,8 @@ def guarded_check(out, inp, fn, *args):
     st, v = guarded(fn, out, *args)
     if st == "ok":
         return v
+    if st == "skipped":
+        return None
     if st == "exc":
         out.fail("node-link-raises:" + v.split(":")[0], "linking two nodes (Node.__add__) raises", inp, observed=v)
     else:
@@ -420,7 +431,7 @@ def correspondence(ctx):
         side = {"dumps": ["?"] * len(cases), "live": {}}
     for (n, h, kind), m, real in zip(cases, model, side["dumps"]):
         out.count(key=(n, tuple(h)), nontrivial=len(h) >= 2, kind=kind, links=min(len(h), 9))
-        if real != m:
+        if real != m and not str(real).startswith("SKIPPED"):
             out.fail("node-tables", "routing tables / paths differ between Model/Node.lean and beyond.utils.node",
                      {"n": n, "hist": h}, observed=real, expected=m)
         out.sample({"line": line(n, h), "reply": m[:160]}, limit=3)
@@ -429,7 +440,7 @@ def correspondence(ctx):
         m = core.Driver().run([line(len(names), hist)])[0]
         exp = side["live"].get(name, "?")
         out.count(key="live-" + name, kind="live-" + name)
-        if exp != m:
+        if exp != m and not str(exp).startswith("SKIPPED"):
             out.fail("node-live", f"live {name} graph tables differ from the model run on the recorded history", name, observed=exp, expected=m)
     correspondence_interleaved(ctx, out)
     correspondence_named(ctx, out)
@@ -496,7 +507,7 @@ def correspondence_interleaved(ctx, out):
         ms = model[k:k + len(h)]
         k += len(h)
         out.count(key=(kind, None if names is None else tuple(names), tuple(h)), nontrivial=len(h) >= 2, kind=kind)
-        if list(real) != list(ms):
+        if list(real) != list(ms) and not str(real[0]).startswith("SKIPPED"):
             i = next((j for j, (a, b) in enumerate(zip(real, ms)) if a != b), min(len(real), len(ms)))
             out.fail("node-interleaved", "tables / paths read BETWEEN the links on the same live objects differ from the model run on the prefix",
                      {"names": names, "hist": [list(e) for e in h], "after_links": i + 1}, observed=(real[i] if i < len(real) else None), expected=(ms[i] if i < len(ms) else None))
@@ -623,6 +634,9 @@ def correspondence_closure(ctx, out):
     node or exceed the steps field of their source are counted (must be 0: Props/C20Graph.lean)"""
     import math
     from harness import c20_registry as R
+    if any(f["family"] in ("node-tables", "node-real-side", "node-interleaved") for f in out.failures):
+        out.notes.append("closure exploration skipped: the model and the real class already disagree on single histories")
+        return
     plan = [(2, 40), (3, 40), (4, 40), (5, ctx.n(4, 6))]
     for n, rounds in plan:
         reply = core.Driver().run([f"closure {n} 3000000 {rounds}"])[0]
@@ -745,8 +759,12 @@ def correspondence_real_registry(ctx, out):
     for i in range(ctx.n(6, 120)):
         scen.append((f"random{i}", R.random_scenario(ctx.rng, ctx.rng.randint(3, 10))))
     lines, meta = [], []
+    bound_hits = 0
     for nm, ops in scen:
+        if bound_hits >= 2:
+            continue
         res = R.run_forked(ops, {"builtin": builtin, "no_convert": True}, time_limit=40.0)
+        bound_hits += any(f["family"] == "scenario-exceeds-bound" for f in res.get("fails", []))
         if res.get("error") or not res.get("tie"):
             if not res.get("fails"):
                 out.fail("real-registry-tie", "scenario could not be recorded on the real registry", {"registry_scenario": ops}, observed=res.get("error"))
@@ -839,7 +857,7 @@ def correspondence_named(ctx, out):
         return
     for (names, h, kind), m, real in zip(cases, model, reals):
         out.count(key=("named", tuple(names), tuple(h)), nontrivial=len(h) >= 2 and len(set(names)) < len(names), kind=kind)
-        if real != m:
+        if real != m and not str(real).startswith("SKIPPED"):
             out.fail("named-node-tables", "routing tables / paths of nodes sharing names differ between Model/Registry.lean and beyond.utils.node",
                      {"names": names, "hist": h}, observed=real, expected=m)
         out.sample({"line": R.named_line(names, h), "reply": m[:160]}, limit=4)
@@ -995,6 +1013,30 @@ def check_history(out, n, hist, kind):
 
 def _check_history(out, n, hist, kind):
     nodes = real_build(n, hist)
+    _check_built(out, n, hist, nodes, {})
+    out.count(key=(n, tuple(hist)), nontrivial=len(hist) >= 2, kind=kind)
+    return nodes
+
+
+def check_interleaved(out, n, hist, kind):
+    return guarded_check(out, {"n": n, "hist": [list(e) for e in hist], "interleaved": True}, _check_interleaved, n, hist, kind)
+
+
+def _check_interleaved(out, n, hist, kind):
+    """read, modify, read again on the SAME live objects: every clause is checked after every link (anything a node remembers from
+    an earlier query — a memoised path, a table not rebuilt — shows as a wrong answer for the current set of links)"""
+    from beyond.utils.node import Node
+    nodes = [Node(str(i)) for i in range(n)]
+    for i, (a, b) in enumerate(hist):
+        nodes[a] + nodes[b]
+        before = len(out.failures)
+        _check_built(out, n, list(hist[:i + 1]), nodes, {"interleaved": True, "full_hist": [list(e) for e in hist]})
+        if len(out.failures) > before:
+            break
+    out.count(key=("interleaved", n, tuple(hist)), nontrivial=len(hist) >= 2, kind=kind)
+
+
+def _check_built(out, n, hist, nodes, extra):
     linked = {frozenset(e) for e in hist}
     is_forest = len(linked) == len(hist) and all(True for _ in [0]) and _is_forest(n, hist)
     for s in range(n):
@@ -1003,31 +1045,40 @@ def _check_history(out, n, hist, kind):
             r = real_path(nodes, s, t, n)
             if t not in d:
                 if r != "U":
-                    out.fail("unconnected-not-reported", "unconnected pair not reported as unknown", {"n": n, "hist": hist, "s": s, "t": t}, observed=r, expected="U")
+                    out.fail("unconnected-not-reported", "unconnected pair not reported as unknown", dict({"n": n, "hist": hist, "s": s, "t": t}, **extra), observed=r, expected="U")
                 continue
             if r in ("U", "K", "L", "?"):
-                out.fail("connected-no-route", "connected pair has no usable route", {"n": n, "hist": hist, "s": s, "t": t}, observed=r, expected=f"path of {d[t]} steps")
+                out.fail("connected-no-route", "connected pair has no usable route", dict({"n": n, "hist": hist, "s": s, "t": t}, **extra), observed=r, expected=f"path of {d[t]} steps")
                 continue
             p = [int(x) for x in r.split(".")]
             valid = p[0] == s and p[-1] == t and all(frozenset((p[i], p[i + 1])) in linked for i in range(len(p) - 1))
             ent = nodes[s].routes.get(str(t))
             if not valid:
-                out.fail("invalid-chain", "returned path is not a chain of existing links", {"n": n, "hist": hist, "s": s, "t": t}, observed=r)
+                out.fail("invalid-chain", "returned path is not a chain of existing links", dict({"n": n, "hist": hist, "s": s, "t": t}, **extra), observed=r)
             elif len(set(p)) != len(p) or len(p) > n:
                 # Props/C20Graph.lean graph_path_simple: any graph, any history
-                out.fail("path-repeats-node", "returned path visits a node twice / has more than n - 1 hops", {"n": n, "hist": hist, "s": s, "t": t}, observed=r)
+                out.fail("path-repeats-node", "returned path visits a node twice / has more than n - 1 hops", dict({"n": n, "hist": hist, "s": s, "t": t}, **extra), observed=r)
             elif s != t and (ent is None or len(p) - 1 > ent.steps):
                 # Props/C20Graph.lean graph_steps_bound
-                out.fail("steps-field-exceeded", "returned path has more hops than the steps field of the source's table entry", {"n": n, "hist": hist, "s": s, "t": t},
+                out.fail("steps-field-exceeded", "returned path has more hops than the steps field of the source's table entry", dict({"n": n, "hist": hist, "s": s, "t": t}, **extra),
                          observed=r, expected=None if ent is None else ent.steps)
             elif s != t and len(p) - 1 != d[t] and ent.steps == d[t]:
                 # Props/C20Graph.lean shortest_if_steps_not_stale
-                out.fail("nonshortest-without-stale-entry", "non-shortest path although the source's steps field equals the distance", {"n": n, "hist": hist, "s": s, "t": t}, observed=r)
+                out.fail("nonshortest-without-stale-entry", "non-shortest path although the source's steps field equals the distance", dict({"n": n, "hist": hist, "s": s, "t": t}, **extra), observed=r)
             elif len(p) - 1 != d[t]:
                 fam = "forest-not-unique-path" if is_forest else "cyclic-nonshortest"
-                out.fail(fam, "returned path is valid but not a shortest chain", {"n": n, "hist": hist, "s": s, "t": t}, observed=r, expected=f"{d[t]} steps")
-    out.count(key=(n, tuple(hist)), nontrivial=len(hist) >= 2, kind=kind)
-    return nodes
+                out.fail(fam, "returned path is valid but not a shortest chain", dict({"n": n, "hist": hist, "s": s, "t": t}, **extra), observed=r, expected=f"{d[t]} steps")
+
+
+def check_interleaved_known(out, n, hist, kind):
+    """interleaved queries on a cyclic history: the non-shortest routes are the open finding, everything else is checked"""
+    tmp = Outcome()
+    check_interleaved(tmp, n, hist, kind)
+    out.cases += tmp.cases
+    out.keys |= tmp.keys
+    for k, v in tmp.dist.items():
+        out.dist[k] = out.dist.get(k, 0) + v
+    out.failures.extend(f for f in tmp.failures if f["family"] != "cyclic-nonshortest")
 
 
 def check_history_known(out, n, hist, kind):
@@ -1222,16 +1273,21 @@ def check_named_history(out, names, hist, kind):
 def _check_named_history(out, names, hist, kind):
     """nodes sharing names: from every node, every NAME carried by a connected node is reached along existing links (the
     nearest such node when the links form a forest), every other name is reported unknown; the walk is step-bounded"""
-    from harness import c20_registry as R
     from beyond.utils.node import Node
-    n = len(names)
     nodes = [Node(str(x)) for x in names]
     for a, b in hist:
         nodes[a] + nodes[b]
+    _check_named_built(out, names, hist, nodes, {})
+    out.count(key=("named", tuple(names), tuple(map(tuple, hist))), nontrivial=len(hist) >= 2 and len(set(names)) < len(names), kind=kind)
+
+
+def _check_named_built(out, names, hist, nodes, extra):
+    from harness import c20_registry as R
+    n = len(names)
     idx = {id(x): i for i, x in enumerate(nodes)}
     linked = {frozenset(e) for e in hist}
     forest = _is_forest(n, hist)
-    inp = {"names": list(names), "hist": [list(e) for e in hist]}
+    inp = dict({"names": list(names), "hist": [list(e) for e in hist]}, **extra)
     for s in range(n):
         d = bfs(n, hist, s)
         for goal in sorted(set(names)):
@@ -1257,7 +1313,24 @@ def _check_named_history(out, names, hist, kind):
                 out.fail("named-path-not-simple", "returned path repeats a node or passes through an earlier node of the goal name", where, observed=p)
             elif forest and len(p) - 1 != min(cands):
                 out.fail("named-forest-not-nearest", "in a forest the path does not lead to the nearest node of that name", where, observed=p, expected=f"{min(cands)} steps")
-    out.count(key=("named", tuple(names), tuple(map(tuple, hist))), nontrivial=len(hist) >= 2 and len(set(names)) < n, kind=kind)
+
+
+def check_named_interleaved(out, names, hist, kind):
+    return guarded_check(out, {"names": list(names), "hist": [list(e) for e in hist], "interleaved": True}, _check_named_interleaved, names, hist, kind)
+
+
+def _check_named_interleaved(out, names, hist, kind):
+    """shared names, queries between the links on the same live objects: a node of the name registered LATER and nearer must be
+    the one reached from then on"""
+    from beyond.utils.node import Node
+    nodes = [Node(str(x)) for x in names]
+    for i, (a, b) in enumerate(hist):
+        nodes[a] + nodes[b]
+        before = len(out.failures)
+        _check_named_built(out, names, list(hist[:i + 1]), nodes, {"interleaved": True, "full_hist": [list(e) for e in hist]})
+        if len(out.failures) > before:
+            break
+    out.count(key=("named-interleaved", tuple(names), tuple(map(tuple, hist))), nontrivial=len(hist) >= 2 and len(set(names)) < len(names), kind=kind)
 
 
 def check_registry_scenarios(out, ctx, rng, big):
@@ -1270,8 +1343,13 @@ def check_registry_scenarios(out, ctx, rng, big):
     for i in range(60 if ctx.thorough else (20 if big else 6)):
         scen.append((f"random{i}", R.random_scenario(rng, rng.randint(4, 12 if big else 9)), "registry-random"))
     tot = {}
+    bound_hits = 0
     for nm, ops, kind in scen:
+        if bound_hits >= 2:
+            out.tally("kind=registry-skipped-after-bound")     # a library whose conversions do not terminate: two failing scenarios are enough
+            continue
         res = R.run_forked(ops, {"max_pairs": 60 if big else 40}, time_limit=60.0 if big else 25.0)
+        bound_hits += any(f["family"] == "scenario-exceeds-bound" for f in res.get("fails", []))
         if res.get("error"):
             raise RuntimeError(f"registry scenario {nm}: {res['error']} {res.get('tb', '')}")
         c = res.get("counts", {})
@@ -1364,6 +1442,18 @@ def _node_level_oracle(seed, thorough, big):
     for _ in range(1500 if big else 150):
         n = rng.randint(4, 14)
         check_history(out, n, permuted_tree(rng, n), "tree-any-order")
+    for _ in range(600 if big else 80):
+        n = rng.randint(3, 8)
+        r = rng.random()
+        h = random_tree_history(rng, n) if r < 0.5 else (random_forest(rng, n) if r < 0.7 else [e for e in random_graph(rng, n)])
+        if r < 0.7:
+            check_interleaved(out, n, h, "interleaved-forest")
+        else:
+            check_interleaved_known(out, n, h, "interleaved-cyclic")
+    for _ in range(600 if big else 80):
+        n = rng.randint(3, 9)
+        h = random_tree_history(rng, n) if rng.random() < 0.7 else random_forest(rng, n)
+        check_named_interleaved(out, random_names(rng, n), h, "interleaved-named")
     for _ in range(2000 if big else 300):
         n = rng.randint(2, 12)
         check_new_registration(out, rng, n, random_forest(rng, n))
@@ -1413,8 +1503,12 @@ def replay(f):
             if x["family"] == f["family"]:
                 out.fail(x["family"], x["what"], i, observed=x["detail"])
                 break
+    elif "names" in i and i.get("interleaved"):
+        check_named_interleaved(out, i["names"], [tuple(e) for e in i.get("full_hist", i["hist"])], "replay")
     elif "names" in i:
         check_named_history(out, i["names"], [tuple(e) for e in i["hist"]], "replay")
+    elif "hist" in i and i.get("interleaved"):
+        check_interleaved(out, i["n"], [tuple(e) for e in i.get("full_hist", i["hist"])], "replay")
     elif "hist" in i:
         check_history(out, i["n"], [tuple(e) for e in i["hist"]], "replay")
     return out
